@@ -174,6 +174,18 @@ func runC19(c *Ctx) {
 		return
 	}
 	c.Saw(gp)
+	// the caller's list is only read: a result built in the list's own storage (out := principals[:0]) rewrites it, and the
+	// next derivation from the same list gets labels stacked on labels
+	if len(gp.Params) > 0 {
+		in := gp.Params[0]
+		muts := w.aliasMutations(w.Tree(gp), func(v ssa.Value) bool { return v == ssa.Value(in) })
+		for _, mu := range muts {
+			c.Bad("R3.principals", shortFn(mu.fn)+"|in-place write to the caller's principal list", w.Pos(mu.at.Pos()), "the labelled list is written into storage shared with the caller's list: "+mu.what)
+		}
+		if len(muts) == 0 {
+			c.Ok("R3.principals", "GetPrincipals|caller's list only read", w.FnPos(gp), "alias flow from the parameter: no element store, no in-place library call, no append onto a shortened view")
+		}
+	}
 	// helpers: repository callees of GetPrincipals; classify by the constant they append
 	helperTag := map[string]string{}
 	for _, call := range callsIn(gp) {
